@@ -527,6 +527,7 @@ def expect_certified_n(sc: dict, prot: List[str]) -> str:
     return "certifiedN-fw2" if sc["block"] == "fw_second_stage_deny" else "certifiedN"
 
 
+DEFENDER_OPS = {"dev_if_enable"}
 OFF_DEVICE = {"sw2_off": "SW2", "sw1_off": "SW1", "b_off": "B", "fw_off": "FW"}
 
 
@@ -579,6 +580,9 @@ def transitional_scenarios(rng: Rng, every_duration: bool) -> List[dict]:
                 window = {"countdown": d + 1 + 2, "boot": d + 1, "reset": d + 1 + u + 1}[phase]  # countdown: two more ops once OFF
                 sc["pre_ops"] = [rng.choice(["ping", "db_connect", "tick", "c_ping", "port_scan_tcp"])]
                 sc["post_ops"] = [rng.choice(attack) for _ in range(window)]
+                if rng.chance(1, 2):
+                    # an attempt to re-enable the device's interfaces inside the window (replaces one of A's operations, never the last)
+                    sc["post_ops"][rng.range(0, max(0, window - 2))] = "dev_if_enable"
                 out.append(sc)
     return out
 
@@ -780,6 +784,11 @@ def do_op(op: str, N, info) -> str:
         return str(wb.get_webpage())
     if op == "tick":
         return "tick"
+    if op == "dev_if_enable":
+        # DEFENDER-side operation of the transitional family (kept in the idle run too): somebody tries to bring the interfaces of the
+        # device that is being powered off / booted back up (enable() must refuse while the node is not ON: POp.ifEnable)
+        dev = N[info["power_device"]]
+        return ",".join(str(bool(ni.enable())) for _, ni in sorted(dev.network_interface.items()))
     raise ValueError(op)
 
 
@@ -793,6 +802,8 @@ def _run_once(sc: dict, with_block: bool, post_ops: List[str], wrappers: bool, p
     from primaite.simulator.network.protocols.arp import ARPPacket
     from primaite.simulator.system.core.session_manager import SessionManager
     sim, N, info = build(sc)
+    if sc.get("phase"):
+        info["power_device"] = power_device(sc)
     t = {"n": 0}
     log: List[str] = []
     errors: List[str] = []
@@ -1065,7 +1076,7 @@ def run_scenario(sc: dict, control: bool = True) -> dict:
     logging.disable(logging.WARNING)  # the simulator logs link removals etc. at INFO to the console
     prot = protected(sc)
     attack = _run_once(sc, True, sc["post_ops"], True, prot)
-    idle = _run_once(sc, True, ["tick"] * len(sc["post_ops"]), True, prot)
+    idle = _run_once(sc, True, [o if o in DEFENDER_OPS else "tick" for o in sc["post_ops"]], True, prot)
     violations = []
     if attack["to_prot"] != idle["to_prot"]:
         # validates the cut theorem's software hypothesis on the implementation: what a blocking router / firewall emits
@@ -1093,7 +1104,7 @@ def run_scenario(sc: dict, control: bool = True) -> dict:
         sc2 = dict(sc, missing_links=[], _want_topo=True)
         ctl = _run_once(sc2, False, sc["post_ops"], False, prot)
         res["topo_ctl"] = ctl["topo"]  # the same network WITHOUT the block: both certificates must reject it
-        ctl_idle = _run_once(sc2, False, ["tick"] * len(sc["post_ops"]), False, prot)
+        ctl_idle = _run_once(sc2, False, [o if o in DEFENDER_OPS else "tick" for o in sc["post_ops"]], False, prot)
         res["nontrivial"] = any(_first_diff(ctl_idle["obs"][h], ctl["obs"][h], h) for h in prot)
     return res
 
